@@ -24,6 +24,7 @@ package rules
 
 import (
 	"fmt"
+	"strings"
 	"unicode/utf8"
 
 	"github.com/kstenerud/go-concise-encoding/ce/events"
@@ -248,6 +249,28 @@ func (_this *Context) ValidateIdentifier(data []uint8) {
 	if !chars.IsIdentifierSafe(data) {
 		panic(fmt.Errorf("identifier contains invalid characters"))
 	}
+}
+
+// Media types must be of the form type/subtype, using only the characters
+// allowed by https://datatracker.ietf.org/doc/html/rfc2045#section-5.1
+func (_this *Context) ValidateMediaType(mediaType string) {
+	slash := strings.IndexByte(mediaType, '/')
+	if slash < 1 || slash == len(mediaType)-1 || !isMediaTypeFirstChar(mediaType[0]) {
+		panic(fmt.Errorf("invalid media type [%v]", mediaType))
+	}
+	for i := 1; i < len(mediaType); i++ {
+		if i != slash && !isMediaTypeChar(mediaType[i]) {
+			panic(fmt.Errorf("invalid media type [%v]", mediaType))
+		}
+	}
+}
+
+func isMediaTypeFirstChar(ch byte) bool {
+	return (ch >= 'a' && ch <= 'z') || (ch >= 'A' && ch <= 'Z')
+}
+
+func isMediaTypeChar(ch byte) bool {
+	return isMediaTypeFirstChar(ch) || (ch >= '0' && ch <= '9') || strings.IndexByte("!#$%&'*+.^_`|~{}-", ch) >= 0
 }
 
 func (_this *Context) ValidateFullArrayAnyType(arrayType events.ArrayType, elementCount uint64, data []uint8) {
